@@ -114,4 +114,10 @@ StreamPrefix == mode = "stream" =>
 RawComplete == (pc \in {"compute", "done"} /\ mode \in {"agg", "group"}) => raw = M
 NoWorkAfterLimit == (mode = "stream" /\ limit > 0) => found <= limit
 Terminates == <>(pc = "done")
+(* Pipeline refines its count-level abstraction PipelineInd, whose inductive invariant Apalache discharges for any number *)
+(* of entries and any limit                                                                                               *)
+PI == INSTANCE PipelineInd WITH remaining <- Len(arr) - idx, rows <- Len(Rows(out)),
+                                seps <- Cardinality({ i \in 1 .. Len(out) : out[i] = S }),
+                                header <- (out # <<>>), footer <- (pc = "done")
+RefinesInd == PI!Init /\ [][PI!Next]_PI!vars
 =============================================================================
